@@ -13,6 +13,7 @@ import (
 	"github.com/NethermindEth/juno/core"
 	"github.com/NethermindEth/juno/core/felt"
 	"github.com/NethermindEth/juno/core/pending"
+	"github.com/NethermindEth/juno/starknet"
 	"github.com/NethermindEth/juno/sync/preconfirmed"
 	"verif/harness/lib"
 )
@@ -336,18 +337,23 @@ func (r *runner) doApply(i int, o OpSpec) string {
 	})
 	kind := "apply-" + map[string]string{"B": "block", "D": "delta", "N": "nochange"}[o.U.Kind]
 	if o.U.Malform != "" && len(o.U.Txs) > 0 {
-		// an ill-formed update (lengths of transactions / receipts / diffs differ, nil elements): the
-		// model cannot express it; the writer must reject it with an error and leave the chain alone
-		// (the model is not told, so the snapshots compared after this op check "unchanged")
+		// An update outside the adapters' contract (PreConfirmedUpdateEnvelope.Validate, applied by
+		// every DataSource of juno before an update can reach ApplyUpdate). What is CHECKED is that
+		// Validate refuses it; what ApplyUpdate does with it when fed directly is only counted. The
+		// model is not told of the op; a panic or an error leaves the chain alone, which the
+		// snapshot comparison after this op confirms.
+		env := starknet.PreConfirmedUpdateEnvelope{Update: upd}
+		if env.Validate() == nil {
+			r.violate(i, "malformed-update-passes-validation",
+				fmt.Sprintf("PreConfirmedUpdateEnvelope.Validate() accepts an update with %s", o.U.Malform))
+		}
 		switch {
 		case panicked:
-			r.hit("malformed-update-panics")
-			r.violate(i, "applyupdate-panics-on-malformed-update",
-				fmt.Sprintf("ApplyUpdate with an update whose receipts / state diffs are %s panics in the writer: %v\n%s", o.U.Malform, err, clip(stack)))
+			r.hit("outside-contract-update-panics-in-applyupdate")
 		case aerr == nil:
-			r.violate(i, "malformed-update-accepted", fmt.Sprintf("ApplyUpdate accepted an update with %s", o.U.Malform))
+			r.hit("outside-contract-update-accepted-by-applyupdate")
 		default:
-			r.hit("malformed-update-rejected")
+			r.hit("outside-contract-update-rejected-by-applyupdate")
 		}
 		return kind
 	}
